@@ -67,9 +67,9 @@ func (s *ClientServerStream) Close(err error) {
 // context error keeps its meaning: grpc-go's server turns it into the status DeadlineExceeded / Canceled.
 // (Any other error that is not a status reads as Unknown with the error's text either way.)
 func handlerErr(err error) error {
-	if err == io.EOF {
+	if _, isStatus := status.FromError(err); err == io.EOF || (!isStatus && errors.Is(err, io.EOF)) {
 		// to a gRPC server an error like any other (Unknown "EOF"); handed on as it is, the client would read
-		// it as "the stream ended well"
+		// it as "the stream ended well" - also when the handler added context to it (errors.Is still says EOF)
 		return status.Error(codes.Unknown, err.Error())
 	}
 	if _, isStatus := status.FromError(err); !isStatus && (errors.Is(err, context.DeadlineExceeded) || errors.Is(err, context.Canceled)) {
